@@ -28,6 +28,11 @@ func ExtractCharClassRanges(re *syntax.Regexp) [][2]byte {
 		return nil
 	}
 
+	// CharClassSearcher is greedy: a lazy quantifier ([a-z]+?) must use a general engine.
+	if re.Flags&syntax.NonGreedy != 0 {
+		return nil
+	}
+
 	if len(re.Sub) != 1 {
 		return nil
 	}
